@@ -164,6 +164,15 @@ func scenarios(tier string) []Scn {
 	for _, v := range []string{"icmp4", "icmp6", "udp4", "udp6", "sack", "sackstrict", "syn", "synparis"} {
 		out = append(out, Scn{Kind: "proto", Items: []proto.Scn{early(v, 0)}, Bound: b, Name: v + "/replies-queued-before-their-probe"})
 	}
+	for _, v := range []string{"icmp4", "icmp6", "udp4", "udp6", "sack", "syn", "synparis"} {
+		// the k-th send fails while replies to the earlier probes are being read and matched: the sender's failure path
+		// (whatever it undoes or records) runs against the receiver's bookkeeping
+		for _, k := range []int{2, 3} {
+			sc := early(v, 0)
+			sc.Faults = []simnet.Fault{{Op: "WriteTo", K: k, Class: "fatal"}}
+			out = append(out, Scn{Kind: "proto", Items: []proto.Scn{sc}, Bound: b, Name: fmt.Sprintf("%s/send-%d-fails-while-replies-are-read", v, k)})
+		}
+	}
 	for _, v := range []string{"sack", "sackstrict"} {
 		// the target retransmits its SYN-ACK while the probes are going out (it passes the tuple filter): whatever the
 		// receiver does with it must not touch what the sender reads
